@@ -100,7 +100,12 @@ class PolPart:
                 yield cand
 
     def PROJECT(self, v, c, o):
-        return (v[self.idx], v[3 + self.idx])
+        # The consumer's state is a deterministic function of the history (for retry: up to the choice among the
+        # candidates of several tables, which the comparison allows): the policy model driven by the handler views of
+        # the state machine is, by C01_refinement + C07_handlers_see_the_new_cache + the C16/C17/C18 theorems, exactly
+        # the right-hand side of the property.  A difference on this observable is therefore the property failing on
+        # this history, not merely a model/implementation mismatch.
+        return (v[self.idx], v[3 + self.idx] and v[self.idx])
 
     def model_view(self, c, o, tier):
         from . import core
